@@ -727,18 +727,27 @@ def minimise(ck, binary, ops, upto, fp, monitor):
     head = ops[:2] if len(ops) > 1 and ops[1].startswith("meta") else ops[:1]
     body = ops[len(head):upto + 1]
 
+    import time
+    budget = getattr(ck, "_dd_budget", 60.0)            # seconds of minimisation per run (etcd histories restart etcd)
+    deadline = time.time() + min(20.0, budget)
+    t_start = time.time()
+
     def fails(cand):
+        if time.time() > deadline:
+            return False
         o = head + cand
         io = run_impl(ck, binary, o, "dd")
         if io is None:
             return False
         return any(x[1] == fp for x in monitor(Trace(o, io)))
     try:
-        if len(body) > 60:
+        if len(body) > 60 or budget <= 0:
             return head + body
         return head + lib.ddmin(body, fails)
     except Exception:
         return head + body
+    finally:
+        ck._dd_budget = budget - (time.time() - t_start)
 
 
 def hunt(ck, binary, prof, monitor, nops, rounds=6, per=25):
